@@ -761,9 +761,19 @@ def _row_loop(ctx, m):
     # result construction
     res = None
     for st in body_wo_doc(fn):
-        if isinstance(st, ast.Assign) and isinstance(st.value, ast.Call) and norm(st.value.func) == 'Grid' \
-                and st.lineno < lp.lineno and st in fn.body:
-            res = st
+        if isinstance(st, ast.Assign) and isinstance(st.value, ast.Call) and st.lineno < lp.lineno and st in fn.body:
+            if norm(st.value.func) == 'Grid':
+                res = st
+                res_ctor = st.value
+            elif isinstance(st.value.func, ast.Attribute) and norm(st.value.func.value) == s:
+                try:
+                    helper = m.func('grid', 'Grid.%s' % st.value.func.attr)
+                    rets = [r.value for r in walk_no_nested(helper) if isinstance(r, ast.Return) and r.value is not None]
+                    if len(rets) == 1 and isinstance(rets[0], ast.Call) and norm(rets[0].func) == 'Grid':
+                        res = st
+                        res_ctor = rets[0]
+                except AnalysisError:
+                    pass
     fnvar = None
     for st in body_wo_doc(fn):
         if isinstance(st, ast.Assign) and isinstance(st.value, ast.Call) and norm(st.value.func) == 'filter_function':
@@ -775,14 +785,14 @@ def _row_loop(ctx, m):
         ctx.error('C11.D6', 'Grid.filter: result grid / compiled function not found')
         return
     rn = norm(res.targets[0])
-    kw = {k.arg: norm(k.value) for k in res.value.keywords}
+    kw = {k.arg: norm(k.value) for k in res_ctor.keywords}
     if kw.get('version') in ('%s.version' % s, '%s._version' % s) and kw.get('metadata') == '%s.metadata' % s \
             and kw.get('columns') == '%s.column' % s:
         ctx.ob('C11.D6', 'the result carries version, metadata and columns of the source', True,
                '%s:%d' % (FG, res.lineno))
     else:
         V(norm(res), 'grid.filter(...) loses the version/metadata/columns of the source',
-          'result grid is built as %s' % norm(res.value), res.lineno)
+          'result grid is built as %s' % norm(res_ctor), res.lineno)
     texts = [norm(x) for x in body]
     want_if = 'if %s(%s, %s):\n    %s.append(%s)' % (fnvar, s, row, rn, row)
     if texts and texts[0] == want_if:
